@@ -340,7 +340,7 @@ def encrypt_sym(alg_i, fix_mode=None):
         post: _
         """
         if not (0 <= mode_i < len(MODE_LIST) and 0 <= pad_i < len(PAD_LIST) and 0 <= klen_i <= 2 and len(plain) <= 17
-                and 0 <= tag_len <= 16 and 0 <= boom <= 3):
+                and tag_len in (0, 3, 4, 16) and 0 <= boom <= 3):
             return True
         if fix_mode is not None and mode_i != fix_mode:
             return True
@@ -766,7 +766,7 @@ def conditions(tier):
             out.append(Cond("encrypt-%s-mode%s" % (name, mname), "encrypt_sym", dict(alg_i=i, fix_mode=mi),
                             bounds="%s, mode %s: padding None/PKCS5/ANSI_X923/ZEROS, key of smallest/largest valid size "
                                    "or 3 bytes, plaintext of 0,1,block-1,block,block+1,2*block arbitrary bytes, IV supplied "
-                                   "(arbitrary bytes) or generated, AAD present or not, tag length absent or 0..16, the "
+                                   "(arbitrary bytes) or generated, AAD present or not, tag length absent or 0/3/4/16, the "
                                    "algorithm constructor behaving or raising ValueError/TypeError/UnsupportedAlgorithm"
                                    % (name, mname), timeout=1200, part="symmetric"))
         out.append(Cond("decrypt-garbage-%s" % name, "decrypt_garbage", dict(alg_i=i),
